@@ -22,13 +22,15 @@ ASSUMPTIONS = [
     "with delete=False a directory->file replacement over a non-empty directory cannot converge and must surface through onerror",
 ]
 MONITORS = "independent walk of the workspace (bytes, directories, exec bits) after apply; second compare's action lists; onerror recorder; audit-hook log of removals"
-REQUIRED_COUNTERS = [
+REQUIRED_COUNTERS = ["targets_with_entries_without_hash", "link_type_lists_with_an_unavailable_first_type", "implicit_parent_targets", 
     "same_index_histories_through_sqlite", "targets_handed_as_view", "root_key_file_targets", "priors_with_symlink_to_directory", "same_index_histories", "two_cache_targets", "implicit_parent_targets", "unavailable_directory_object_cases", "applies", "kind_swap_cases", "nested_dir_deletions", "lazy_targets", "explicit_targets", "delete_off_cases",
     "unavailable_source_cases", "second_compares", "exec_entries_checked", "link/hardlink", "link/symlink", "link/copy",
 ]
 
 
 def run_shard(ctx):
+    from dvc_data.hashfile.meta import Meta
+    from dvc_data.index import DataIndexEntry
     from dvc_data.index.checkout import apply, compare
 
     res = ctx.res
@@ -61,6 +63,12 @@ def run_shard(ctx):
             lazy = rng.random() < 0.4
             delete = rng.random() < 0.8
             link = rng.choice(["default", "copy", "copy", "hardlink", "symlink"])
+            # the caller may hand over a list of link types to try in turn (the first one may not be available: there is no reflink
+            # on the filesystem these workspaces live on)
+            links_arg = None if link == "default" else [link]
+            if link in ("copy", "hardlink") and rng.random() < 0.3:
+                links_arg = ["reflink", link] if link == "copy" else rng.choice([["reflink", "hardlink", "copy"], ["reflink", "hardlink"]])
+                res.count("link_type_lists_with_an_unavailable_first_type")
             update_meta = rng.random() < 0.5
             use_state = rng.random() < 0.3
             texec = {k for k in T if rng.random() < 0.15}
@@ -132,8 +140,12 @@ def run_shard(ctx):
                     indexlab.put_dir_object(cache, T, lazy_at)
                     rest = {k: v for k, v in T.items() if k[: len(lazy_at)] != lazy_at}
                     return indexlab.lazy_index(T, lazy_at, cache_odb=cache, extra_files=rest)
-                return with_storages(indexlab.explicit_index(T, Te, texec, cache_odb=cache))
+                idx = indexlab.explicit_index(T, Te, texec, cache_odb=cache)
+                for k_ in nohash_box[0]:
+                    idx[k_] = DataIndexEntry(key=k_, meta=Meta(size=len(T[k_])), hash_info=None)
+                return with_storages(idx)
 
+            nohash_box = [set()]
             # unavailable sources
             unavailable = set()
             if rng.random() < 0.15 and sub_cache is None:
@@ -147,6 +159,14 @@ def run_shard(ctx):
                         unavailable.add(o)
                 if unavailable:
                     res.count("unavailable_source_cases")
+            # target file entries that name no source at all (metadata, but no hash): to be reported, the rest is created
+            nohash = set()
+            if not unavailable and not lazy and not implicit_parents and sub_cache is None and rng.random() < 0.1:
+                nohash = {k for k in T if P.get(k) != T[k] and k not in texec and rng.random() < 0.3}
+                if nohash:
+                    unavailable = {H("md5", T[k]) for k in nohash}
+                    res.count("targets_with_entries_without_hash")
+                    nohash_box[0] = nohash
             # the lazily loaded directory's own object is missing from the cache: must be reported, whatever the workspace holds
             dir_unavailable = False
             if lazy and rng.random() < 0.12:
@@ -166,7 +186,7 @@ def run_shard(ctx):
                 os.symlink(outside, dirlink)
                 res.count("priors_with_symlink_to_directory")
 
-            cfg = {"two_caches": ("/".join(sub_prefix), "child-first" if child_first else "parent-first") if sub_cache is not None else None, "implicit_parents": implicit_parents, "lazy": lazy, "lazy_at": "/".join(lazy_at) if lazy else None, "delete": delete, "link": link, "update_meta": update_meta, "state": use_state, "ops": ops[:8],
+            cfg = {"two_caches": ("/".join(sub_prefix), "child-first" if child_first else "parent-first") if sub_cache is not None else None, "implicit_parents": implicit_parents, "lazy": lazy, "lazy_at": "/".join(lazy_at) if lazy else None, "delete": delete, "link": link, "links": links_arg, "update_meta": update_meta, "state": use_state, "ops": ops[:8],
                    "swapped": swapped, "prior": sorted("/".join(k) for k in P), "target": sorted("/".join(k) for k in T),
                    "prior_empty_dirs": sorted("/".join(k) for k in Pe), "target_empty_dirs": sorted("/".join(k) for k in Te),
                    "unavailable": len(unavailable)}
@@ -209,7 +229,7 @@ def run_shard(ctx):
                 diff = compare(old, new, delete=delete)
                 try:
                     apply(diff, ws, fs, update_meta=False, storage="cache", onerror=lambda s_, dst, e: errors_d.append(dst), state=state,
-                          links=None if link == "default" else [link])
+                          links=None if links_arg is None else list(links_arg))
                 except Exception:  # noqa: BLE001  (loud is fine)
                     errors_d.append("raised")
                 want = os.path.join(ws, *lazy_at)
@@ -228,7 +248,7 @@ def run_shard(ctx):
                 diff = compare(old, new, delete=delete)
                 try:
                     apply(diff, ws, fs, update_meta=update_meta, storage="cache", onerror=onerror, state=state,
-                          links=None if link == "default" else [link], jobs=rng.choice([None, 1]))
+                          links=None if links_arg is None else list(links_arg), jobs=rng.choice([None, 1]))
                 except Exception as e:  # noqa: BLE001
                     apply_exc = e
             got = walk_files(ws)
@@ -253,6 +273,11 @@ def run_shard(ctx):
                 if not (unavailable or blocked):
                     raise apply_exc
                 res.count("apply_raised_with_uncreatable_entries")
+                if nohash and not blocked and not errors:
+                    # ... but an entry that names no source at all is to be reported through the callback, not by giving up on the
+                    # whole target before anything has been created
+                    res.violation("entry-without-source-not-reported-through-the-callback", f"apply raised {type(apply_exc).__name__} without having told the error callback "
+                                  f"about {sorted('/'.join(k_) for k_ in nohash)[:2]}", case=case, detail=cfg)
             for k, v in T.items():
                 o = H("md5", v)
                 g = got.get(k)
